@@ -84,6 +84,9 @@ def run(tier, seed):
     rng = core.shard_rng(seed, "C15", 0)
     srcs = list(FEATURE_PROGRAMS) + corpus.sources() + [src for _, src in gfeat.programs() if len(src) < 3000]
     srcs += [src for _, src in (gnest.two_level()[seed % 3::3] if tier == "quick" else gnest.programs(3))]
+    # type expressions (bare `[]`, `func`, open tuples ..), statement pairs and hostile identifiers in every position:
+    # PL nodes whose JSON form has optional / payload-less parts
+    srcs += [src for _, src in gnest.type_programs()] + [src for _, src in gnest.stmt_programs()] + [src for _, src in gnest.ident_programs()]
     n_rel = 1200 if tier == "quick" else 6000
     for prof in ("core", "window", "project"):
         srcs += [grel.random_program_text(rng, prof) for _ in range(n_rel // 3)]
